@@ -182,6 +182,10 @@ def run(ctx):
         ctx.cov['traces_validated_against_impl'] += len(res)
         bad = [i for i, r in enumerate(res) if not r]
         if bad: ctx.broken.append(f'GMRES control model and implementation disagree on {len(bad)} of {len(res)} run(s), first: {ctl_terms[bad[0]][:400]}')
+    _G = qx.rand_int(rng, 3, 3, -2, 2)
+    for _i in range(3): _G[_i][_i] = _G[_i][_i] + Q(6)
+    _A = qx.to_np(_G); _b = qx.to_np(qx.rand_int(rng, 3, 1, -3, 3))
+    cm.layout_sweep(ctx, qx, 'C04', 'QGMRESSolver.solve(A)', lambda X: solve(X, _b, tol=1e-12)[0], _A, {'n': 3})
     ctx.cov['rule'] = (f'systems n = 1..{nmax}: identity, scaled identity, identity + rank one, repeated diagonal, unitary, Hermitian, triangular, generic (exact integer/rational data), right-hand sides random / eigenvector / zero, dense and sparse, none / left_lu; '
                        'true residual, info fields, monotone history; control model fed with the observed cycle residuals for tolerances 1e-2..1e-12 and every cap 0..n; every cycle against the exact rational Krylov minimum; '
                        'uniform scaling 1e-6..1e6; Hermitian systems of condition 1e5, 1e6 at scales 1e3, 1e6; failing LU preconditioner. Non-trivial = n >= 2.')
